@@ -1,9 +1,13 @@
-import Sozu.Udp.Lemmas
+import Sozu.Udp.StepProofs
+import Sozu.Udp.Runs
 /-
 C19 — UDP flows are sticky, isolated, bounded and torn down once.
-Only property statements (`C19_*`) and their non-vacuity examples live here.
-All theorems quantify over every state reachable from `UdpManager::new` by an
-arbitrary input sequence (`Reachable`), and over an arbitrary next input.
+Only property statements (`C19_*`) and their non-vacuity examples live here;
+every proof is in `StepProofs.lean` (per-input and accounting theorems),
+`Runs.lean` (whole runs, timer, I/O shell) and `Lemmas.lean`.
+The per-input theorems quantify over every state reachable from
+`UdpManager::new` by an arbitrary input sequence (`Reachable`) and over an
+arbitrary next input; the run theorems over arbitrary input sequences.
 `SendToBackend` / `SendToClient` carry the owning flow id as a ghost field of
 the model (the driver does not print it).
 -/
@@ -12,20 +16,6 @@ set_option linter.unusedVariables false
 namespace Sozu.Udp
 open Sozu KMap
 
-/-- reachable from a fresh manager by any sequence of inputs (client / backend
-    datagrams, resolutions incl. stale ones, config / cap / drain events,
-    timeouts, aborts, mass teardown) -/
-def Reachable (s : State) : Prop := ∃ c mf mr ops, s = run (State.new c mf mr) ops
-
-theorem reachable_inv {s : State} (h : Reachable s) : Inv s := by
-  obtain ⟨c, mf, mr, ops, rfl⟩ := h
-  exact inv_run ops (inv_new c mf mr)
-
-theorem reachable_step {s : State} (h : Reachable s) (op : Op) : Reachable (step s op).1 := by
-  obtain ⟨c, mf, mr, ops, rfl⟩ := h
-  refine ⟨c, mf, mr, ops ++ [op], ?_⟩
-  simp [run, List.foldl_append]
-
 /-- The reachable-state invariant: table ↔ slab consistency (every table entry
     points at a live flow admitted under exactly that key, every live flow is
     in the table under its own key), no `Closing` flow persists,
@@ -33,16 +23,13 @@ theorem reachable_step {s : State} (h : Reachable s) (op : Op) : Reachable (step
     the slab free list is sound, `len` is the number of live flows, no live
     flow has an exhausted cap, and `first_upstream_pending` means "PROXY
     header still owed". -/
-theorem C19_invariant {s : State} (h : Reachable s) : Inv s := reachable_inv h
+theorem C19_invariant {s : State} (h : Reachable s) : Inv s :=
+  c19_invariant h
 
 /-- at most one live flow per flow key -/
 theorem C19_one_flow_per_key {s : State} (h : Reachable s) (i j : Nat) (f g : Flow)
-    (hf : getFlow s i = some f) (hg : getFlow s j = some g) (hk : ownKey f = ownKey g) : i = j := by
-  have hs := (reachable_inv h).str
-  have h1 := hs.tableComplete i f hf
-  have h2 := hs.tableComplete j g hg
-  rw [hk, h2] at h1
-  cases h1; rfl
+    (hf : getFlow s i = some f) (hg : getFlow s j = some g) (hk : ownKey f = ownKey g) : i = j :=
+  c19_one_flow_per_key h i j f g hf hg hk
 
 /-! ### sticky -/
 
@@ -56,47 +43,8 @@ theorem C19_sticky {s : State} (h : Reachable s) (op : Op) (id : Nat) (dst : Add
     (∃ f src p now, op = .client src p now ∧ getFlow s id = some f ∧ f.backend = some dst ∧
         get? s.table (flowKey src s.cluster.withPort) = some id) ∨
     (∃ f bid now, op = .resolved id bid dst now ∧ getFlow s id = some f ∧ f.backend = none ∧
-        Out.openUpstream id dst ∈ (step s op).2) := by
-  have hi := reachable_inv h
-  obtain ⟨_, k⟩ := step_kind hi op
-  have hmem := fun o (ho : Out.noise o = false) => @mem_outs_iff_sig o (handle s op).outs ho
-  rw [step_snd s op hi.drained] at hout ⊢
-  rw [hmem _ rfl] at hout
-  cases k with
-  | quiet core sg =>
-    obtain ⟨l, hl, hd⟩ := sg
-    rw [hl, hi.drained] at hout
-    obtain ⟨r, hr⟩ := hd _ (by simpa using hout); cases hr
-  | buffer src p now id' f hop hvalid hk hf hph hsig slots len table =>
-    rw [hsig, hi.drained] at hout; simp at hout
-  | forward src p now id' f b hop hvalid hk hf hph hb res =>
-    rw [fwdRes_mem res hi.drained] at hout
-    rcases hout with hout | ⟨_, hout⟩
-    · simp at hout
-      obtain ⟨rfl, rfl, rfl⟩ := hout
-      exact Or.inl ⟨f, src, p, now, hop, hf, hb, hk⟩
-    · cases hout
-  | reply id' p now f hop hlen hf hph res =>
-    rw [fwdRes_mem res hi.drained] at hout
-    rcases hout with hout | ⟨_, hout⟩
-    · simp at hout
-    · cases hout
-  | resolve id' bid addr now f q hop hf hph hq res =>
-    rw [fwdRes_mem res hi.drained] at hout
-    rcases hout with hout | ⟨_, hout⟩
-    · simp at hout
-      obtain ⟨rfl, rfl, rfl⟩ := hout
-      refine Or.inr ⟨f, bid, now, hop, hf, ?_, ?_⟩
-      · have hp := (hi.str.phaseOk _ f hf)
-        cases hb : f.backend with
-        | none => rfl
-        | some b => have := hp.estab.mpr (by simp [hb]); rw [hph] at this; cases this
-      · rw [hmem _ rfl, fwdRes_mem res hi.drained]; simp
-    · cases hout
-  | admission src p now hop hvalid hnone hroom hnd hvac hsig slots table len =>
-    rw [hsig, hi.drained] at hout; simp at hout
-  | closes ids hnodup hlive hop hsig slots len hle =>
-    rw [hsig, hi.drained] at hout; simp at hout
+        Out.openUpstream id dst ∈ (step s op).2) :=
+  c19_sticky h op id dst pl hout
 
 /-- A live flow incarnation keeps its client, its captured config and — once
     set — its backend address for as long as it lives; it disappears from the
@@ -105,84 +53,8 @@ theorem C19_sticky_backend_fixed {s : State} (h : Reachable s) (op : Op) (id : N
     (hf : getFlow s id = some f) :
     (∃ f', getFlow (step s op).1 id = some f' ∧ f'.client = f.client ∧ f'.cfg = f.cfg ∧
         (∀ b, f.backend = some b → f'.backend = some b) ∧ Out.closeFlow id ∉ (step s op).2) ∨
-    (getFlow (step s op).1 id = none ∧ Out.closeFlow id ∈ (step s op).2) := by
-  have hi := reachable_inv h
-  obtain ⟨_, k⟩ := step_kind hi op
-  have hmem := fun o (ho : Out.noise o = false) => @mem_outs_iff_sig o (handle s op).outs ho
-  simp only [getFlow_def] at hf ⊢
-  rw [step_snd s op hi.drained, step_slots s op hi.drained, hmem _ rfl]
-  cases k with
-  | quiet core sg =>
-    obtain ⟨l, hl, hd⟩ := sg
-    left
-    refine ⟨f, by rw [core.slots]; exact hf, rfl, rfl, fun b hb => hb, ?_⟩
-    rw [hl, hi.drained]
-    intro hc
-    obtain ⟨r, hr⟩ := hd _ (by simpa using hc); cases hr
-  | buffer src p now id' f0 hop hvalid hk hf0 hph hsig slots len table =>
-    left
-    rw [slots, hsig, hi.drained]
-    by_cases e : id = id'
-    · subst e; rw [hf] at hf0; cases hf0
-      exact ⟨Flow.touch { f with pending := some p } f.cfg.frontTo now, by simp, rfl, rfl,
-        fun b hb => hb, by simp⟩
-    · exact ⟨f, by simp [e, hf], rfl, rfl, fun b hb => hb, by simp⟩
-  | forward src p now id' f0 b hop hvalid hk hf0 hph hb res =>
-    rw [res.slots, fwdRes_mem res hi.drained]
-    by_cases e : id = id'
-    · subst e; rw [hf] at hf0; cases hf0
-      cases ht : (f.onClient now).takePP.2.teardownDue
-      · left; refine ⟨(f.onClient now).takePP.2, by simp, ?_, ?_, ?_, by simp⟩
-        · rw [takePP_snd]; rfl
-        · rw [takePP_snd]; rfl
-        · intro b' hb'; rw [takePP_snd]; exact hb'
-      · right; simp
-    · left
-      exact ⟨f, by simp [e, hf], rfl, rfl, fun b hb => hb, by simp [e]⟩
-  | reply id' p now f0 hop hlen hf0 hph res =>
-    rw [res.slots, fwdRes_mem res hi.drained]
-    by_cases e : id = id'
-    · subst e; rw [hf] at hf0; cases hf0
-      cases ht : (f.onBackend now).teardownDue
-      · left; exact ⟨f.onBackend now, by simp, rfl, rfl, fun b hb => hb, by simp⟩
-      · right; simp
-    · left
-      exact ⟨f, by simp [e, hf], rfl, rfl, fun b hb => hb, by simp [e]⟩
-  | resolve id' bid addr now f0 q hop hf0 hph hq res =>
-    rw [res.slots, fwdRes_mem res hi.drained]
-    by_cases e : id = id'
-    · subst e; rw [hf] at hf0; cases hf0
-      have hnb : f.backend = none := by
-        have hp := (hi.str.phaseOk _ f hf)
-        cases hb : f.backend with
-        | none => rfl
-        | some b => have := hp.estab.mpr (by simp [hb]); rw [hph] at this; cases this
-      cases ht : (resolvedFlow f bid addr now).teardownDue
-      · left; refine ⟨resolvedFlow f bid addr now, by simp, ?_, ?_, ?_, by simp⟩
-        · unfold resolvedFlow; rw [takePP_snd]; rfl
-        · unfold resolvedFlow; rw [takePP_snd]; rfl
-        · intro b' hb'; rw [hnb] at hb'; cases hb'
-      · right; simp
-    · left
-      exact ⟨f, by simp [e, hf], rfl, rfl, fun b hb => hb, by simp [e]⟩
-  | admission src p now hop hvalid hnone hroom hnd hvac hsig slots table len =>
-    left
-    rw [slots, hsig, hi.drained]
-    have e : id ≠ nextId s := by intro e; rw [e, hvac] at hf; cases hf
-    exact ⟨f, by simp [e, hf], rfl, rfl, fun b hb => hb, by simp⟩
-  | closes ids hnodup hlive hop hsig slots len hle =>
-    rw [slots, hsig, hi.drained]
-    by_cases e : id ∈ ids
-    · right; simp [e]
-    · left; exact ⟨f, by simp [e, hf], rfl, rfl, fun b hb => hb, by simp [e]⟩
-
-/-- flow-key equality of two sources filed under possibly different affinity
-    modes is affinity-key equality (the `ip_only` flag keeps the modes apart) -/
-theorem flowKey_eq_affKey {a b : Addr} {wa wb : Bool}
-    (h : flowKey a wa = flowKey b wb) : wa = wb ∧ affKey a wa = affKey b wb := by
-  rcases a with ⟨av, aip, ap⟩
-  rcases b with ⟨bv, bip, bp⟩
-  cases wa <;> cases wb <;> simp_all [flowKey, affKey]
+    (getFlow (step s op).1 id = none ∧ Out.closeFlow id ∈ (step s op).2) :=
+  c19_sticky_backend_fixed h op id f hf
 
 /-- A client datagram is only ever forwarded on a flow that was admitted under
     the *same* affinity mode for the *same* affinity key (source ip, plus source
@@ -193,15 +65,8 @@ theorem C19_sticky_affinity {s : State} (h : Reachable s) (src : Addr) (p : Byte
     (hout : Out.sendToBackend id dst pl ∈ (step s (.client src p now)).2)
     (hf : getFlow s id = some f) :
     f.cfg.withPort = s.cluster.withPort ∧
-      affKey f.client f.cfg.withPort = affKey src s.cluster.withPort := by
-  rcases C19_sticky h _ id dst pl hout with ⟨f', src', p', now', hop, hf', _, hk⟩ | ⟨_, _, _, hop, _⟩
-  · cases hop
-    rw [hf] at hf'; cases hf'
-    obtain ⟨g, hg, hkey⟩ := (reachable_inv h).str.tableSound _ _ hk
-    simp only [getFlow_def] at hf
-    rw [hf] at hg; cases hg
-    exact flowKey_eq_affKey hkey.symm
-  · cases hop
+      affKey f.client f.cfg.withPort = affKey src s.cluster.withPort :=
+  c19_sticky_affinity h src p now id dst pl f hout hf
 
 def cex4 : Addr := { v6 := false, ip := [10, 0, 0, 1], port := 0 }
 def cex4' : Addr := { v6 := false, ip := [10, 0, 0, 1], port := 9001 }
@@ -236,45 +101,10 @@ example : Reachable cexState := ⟨cexCfg true, 4, 64, _, rfl⟩
 theorem C19_isolated {s : State} (h : Reachable s) (op : Op) (id : Nat) (dst : Addr) (pl : Bytes)
     (hout : Out.sendToClient id dst pl ∈ (step s op).2) :
     ∃ f now, op = .backend id pl now ∧ getFlow s id = some f ∧ f.phase = .established ∧
-      dst = f.client := by
-  have hi := reachable_inv h
-  obtain ⟨_, k⟩ := step_kind hi op
-  rw [step_snd s op hi.drained, mem_outs_iff_sig rfl] at hout
-  cases k with
-  | quiet core sg =>
-    obtain ⟨l, hl, hd⟩ := sg
-    rw [hl, hi.drained] at hout
-    obtain ⟨r, hr⟩ := hd _ (by simpa using hout); cases hr
-  | buffer src p now id' f hop hvalid hk hf hph hsig slots len table =>
-    rw [hsig, hi.drained] at hout; simp at hout
-  | forward src p now id' f b hop hvalid hk hf hph hb res =>
-    rw [fwdRes_mem res hi.drained] at hout
-    rcases hout with hout | ⟨_, hout⟩
-    · simp at hout
-    · cases hout
-  | reply id' p now f hop hlen hf hph res =>
-    rw [fwdRes_mem res hi.drained] at hout
-    rcases hout with hout | ⟨_, hout⟩
-    · simp at hout
-      obtain ⟨rfl, rfl, rfl⟩ := hout
-      exact ⟨f, now, hop, hf, hph, rfl⟩
-    · cases hout
-  | resolve id' bid addr now f q hop hf hph hq res =>
-    rw [fwdRes_mem res hi.drained] at hout
-    rcases hout with hout | ⟨_, hout⟩
-    · simp at hout
-    · cases hout
-  | admission src p now hop hvalid hnone hroom hnd hvac hsig slots table len =>
-    rw [hsig, hi.drained] at hout; simp at hout
-  | closes ids hnodup hlive hop hsig slots len hle =>
-    rw [hsig, hi.drained] at hout; simp at hout
+      dst = f.client :=
+  c19_isolated h op id dst pl hout
 
 /-! ### no duplication, merging, truncation, reordering -/
-
-theorem toBackend_closeIf (c : Bool) (id : Nat) :
-    (if c = true then [Out.closeFlow id] else []).filter isToBackend = [] := by
-  cases c <;> rfl
-
 
 /-- One input causes at most one upstream datagram, and that datagram is
     byte-identical to a single accepted client datagram: either the datagram
@@ -291,72 +121,8 @@ theorem C19_no_dup_merge_trunc_reorder {s : State} (h : Reachable s) (op : Op) :
          (∃ bid now, op = .resolved id bid dst now ∧ f.phase = .awaiting ∧ f.pending = some orig)) ∧
         pl = (if f.cfg.sendPP && (f.cfg.ppEvery || f.firstPending) then ppHeader f.client dst ++ orig
               else orig) ∧
-        (f.cfg.ppEvery = false → f.firstPending = (f.cfg.sendPP && f.req == 0)) := by
-  have hi := reachable_inv h
-  obtain ⟨_, k⟩ := step_kind hi op
-  rw [step_snd s op hi.drained, ← toBackend_sig]
-  have hmem := fun o (ho : Out.noise o = false) => @mem_outs_iff_sig o (handle s op).outs ho
-  cases k with
-  | quiet core sg =>
-    obtain ⟨l, hl, hd⟩ := sg
-    rw [hl, hi.drained]
-    refine ⟨?_, ?_⟩
-    · have : l.filter isToBackend = [] := by
-        apply List.filter_eq_nil_iff.mpr
-        intro o ho; obtain ⟨r, hr⟩ := hd o ho; subst hr; simp [isToBackend]
-      simp [this]
-    · intro id dst pl hout
-      rw [hmem _ rfl, hl, hi.drained] at hout
-      obtain ⟨r, hr⟩ := hd _ (by simpa using hout); cases hr
-  | buffer src p now id' f hop hvalid hk hf hph hsig slots len table =>
-    rw [hsig, hi.drained]
-    refine ⟨by simp, ?_⟩
-    intro id dst pl hout
-    rw [hmem _ rfl, hsig, hi.drained] at hout; simp at hout
-  | forward src p now id' f b hop hvalid hk hf hph hb res =>
-    refine ⟨?_, ?_⟩
-    · rw [res.sig, hi.drained]; simp [List.filter_append, toBackend_closeIf, isToBackend, List.filter_cons]
-    · intro id dst pl hout
-      rw [hmem _ rfl, fwdRes_mem res hi.drained] at hout
-      rcases hout with hout | ⟨_, hout⟩
-      · simp at hout
-        obtain ⟨rfl, rfl, rfl⟩ := hout
-        refine ⟨f, p, hf, Or.inl ⟨src, now, hop, hph⟩, ?_, (hi.caps _ f hf).pp⟩
-        rw [takePP_fst]; rfl
-      · cases hout
-  | reply id' p now f hop hlen hf hph res =>
-    refine ⟨?_, ?_⟩
-    · rw [res.sig, hi.drained]; simp [List.filter_append, toBackend_closeIf, isToBackend, List.filter_cons]
-    · intro id dst pl hout
-      rw [hmem _ rfl, fwdRes_mem res hi.drained] at hout
-      rcases hout with hout | ⟨_, hout⟩
-      · simp at hout
-      · cases hout
-  | resolve id' bid addr now f q hop hf hph hq res =>
-    refine ⟨?_, ?_⟩
-    · rw [res.sig, hi.drained]; simp [List.filter_append, toBackend_closeIf, isToBackend, List.filter_cons]
-    · intro id dst pl hout
-      rw [hmem _ rfl, fwdRes_mem res hi.drained] at hout
-      rcases hout with hout | ⟨_, hout⟩
-      · simp at hout
-        obtain ⟨rfl, rfl, rfl⟩ := hout
-        refine ⟨f, q, hf, Or.inr ⟨bid, now, hop, hph, hq⟩, ?_, (hi.caps _ f hf).pp⟩
-        unfold resolvedPP; rw [takePP_fst]; rfl
-      · cases hout
-  | admission src p now hop hvalid hnone hroom hnd hvac hsig slots table len =>
-    rw [hsig, hi.drained]
-    refine ⟨by simp [isToBackend], ?_⟩
-    intro id dst pl hout
-    rw [hmem _ rfl, hsig, hi.drained] at hout; simp at hout
-  | closes ids hnodup hlive hop hsig slots len hle =>
-    rw [hsig, hi.drained]
-    refine ⟨?_, ?_⟩
-    · have : (ids.map Out.closeFlow).filter isToBackend = [] := by
-        apply List.filter_eq_nil_iff.mpr
-        intro o ho; obtain ⟨i, _, rfl⟩ := List.mem_map.mp ho; simp [isToBackend]
-      simp [this]
-    · intro id dst pl hout
-      rw [hmem _ rfl, hsig, hi.drained] at hout; simp at hout
+        (f.cfg.ppEvery = false → f.firstPending = (f.cfg.sendPP && f.req == 0)) :=
+  c19_no_dup_merge_trunc_reorder h op
 
 /-- The one-slot buffer of an awaiting flow is newest-wins: while the flow
     keeps awaiting its backend, its buffered datagram is either unchanged or
@@ -367,47 +133,8 @@ theorem C19_buffer_newest_wins {s : State} (h : Reachable s) (op : Op) (id : Nat
     (hf' : getFlow (step s op).1 id = some f') (hph' : f'.phase = .awaiting) :
     f'.pending = f.pending ∨
     (∃ src p now, op = .client src p now ∧ ClientValid s p ∧
-      get? s.table (flowKey src s.cluster.withPort) = some id ∧ f'.pending = some p) := by
-  have hi := reachable_inv h
-  obtain ⟨_, k⟩ := step_kind hi op
-  simp only [getFlow_def] at hf hf'
-  rw [step_slots s op hi.drained] at hf'
-  cases k with
-  | quiet core sg => rw [core.slots, hf] at hf'; cases hf'; exact Or.inl rfl
-  | buffer src p now id' f0 hop hvalid hk hf0 hph0 hsig slots len table =>
-    rw [slots] at hf'
-    by_cases e : id = id'
-    · subst e; simp at hf'; subst hf'
-      exact Or.inr ⟨src, p, now, hop, hvalid, hk, rfl⟩
-    · simp [e, hf] at hf'; subst hf'; exact Or.inl rfl
-  | forward src p now id' f0 b hop hvalid hk hf0 hph0 hb res =>
-    rw [res.slots] at hf'
-    by_cases e : id = id'
-    · subst e; rw [hf] at hf0; cases hf0; rw [hph] at hph0; cases hph0
-    · simp [e, hf] at hf'; subst hf'; exact Or.inl rfl
-  | reply id' p now f0 hop hlen hf0 hph0 res =>
-    rw [res.slots] at hf'
-    by_cases e : id = id'
-    · subst e; rw [hf] at hf0; cases hf0; rw [hph] at hph0; cases hph0
-    · simp [e, hf] at hf'; subst hf'; exact Or.inl rfl
-  | resolve id' bid addr now f0 q hop hf0 hph0 hq res =>
-    rw [res.slots] at hf'
-    by_cases e : id = id'
-    · subst e; simp at hf'
-      obtain ⟨_, rfl⟩ := hf'
-      have : (resolvedFlow f0 bid addr now).phase = .established := by
-        unfold resolvedFlow; rw [takePP_snd]; rfl
-      rw [this] at hph'; cases hph'
-    · simp [e, hf] at hf'; subst hf'; exact Or.inl rfl
-  | admission src p now hop hvalid hnone hroom hnd hvac hsig slots table len =>
-    rw [slots] at hf'
-    have e : id ≠ nextId s := by intro e; rw [e, hvac] at hf; cases hf
-    simp [e, hf] at hf'; subst hf'; exact Or.inl rfl
-  | closes ids hnodup hlive hop hsig slots len hle =>
-    rw [slots] at hf'
-    by_cases e : id ∈ ids
-    · simp [e] at hf'
-    · simp [e, hf] at hf'; subst hf'; exact Or.inl rfl
+      get? s.table (flowKey src s.cluster.withPort) = some id ∧ f'.pending = some p) :=
+  c19_buffer_newest_wins h op id f f' hf hph hf' hph'
 
 /-! ### admission / bounded -/
 
@@ -421,66 +148,20 @@ theorem C19_admission {s : State} (h : Reachable s) (op : Op) (id : Nat) (cl : S
       getFlow s id = none ∧ get? s.table (flowKey src s.cluster.withPort) = none ∧
       k = affKey src s.cluster.withPort ∧
       getFlow (step s op).1 id = some (newFlow src s.cluster p now) ∧
-      (step s op).1.len = s.len + 1 := by
-  have hi := reachable_inv h
-  obtain ⟨_, kd⟩ := step_kind hi op
-  rw [step_snd s op hi.drained, mem_outs_iff_sig rfl] at hout
-  simp only [getFlow_def]
-  rw [step_slots s op hi.drained, step_len s op hi.drained]
-  cases kd with
-  | quiet core sg =>
-    obtain ⟨l, hl, hd⟩ := sg
-    rw [hl, hi.drained] at hout
-    obtain ⟨r, hr⟩ := hd _ (by simpa using hout); cases hr
-  | buffer src p now id' f hop hvalid hk hf hph hsig slots len table =>
-    rw [hsig, hi.drained] at hout; simp at hout
-  | forward src p now id' f b hop hvalid hk hf hph hb res =>
-    rw [fwdRes_mem res hi.drained] at hout
-    rcases hout with hout | ⟨_, hout⟩
-    · simp at hout
-    · cases hout
-  | reply id' p now f hop hlen hf hph res =>
-    rw [fwdRes_mem res hi.drained] at hout
-    rcases hout with hout | ⟨_, hout⟩
-    · simp at hout
-    · cases hout
-  | resolve id' bid addr now f q hop hf hph hq res =>
-    rw [fwdRes_mem res hi.drained] at hout
-    rcases hout with hout | ⟨_, hout⟩
-    · simp at hout
-    · cases hout
-  | admission src p now hop hvalid hnone hroom hnd hvac hsig slots table len =>
-    rw [hsig, hi.drained] at hout
-    simp at hout
-    obtain ⟨rfl, rfl, rfl⟩ := hout
-    exact ⟨src, p, now, hop, hroom, hnd, hvac, hnone, rfl, by rw [slots]; simp, len⟩
-  | closes ids hnodup hlive hop hsig slots len hle =>
-    rw [hsig, hi.drained] at hout; simp at hout
+      (step s op).1.len = s.len + 1 :=
+  c19_admission h op id cl k hout
 
 /-- `len` (what admission compares with the cap) is the number of live flows -/
 theorem C19_admission_len_is_live_count {s : State} (h : Reachable s) :
     s.len = (liveIds s).length ∧ ∀ id, id ∈ liveIds s ↔ (getFlow s id).isSome :=
-  ⟨(reachable_inv h).str.lenEq, fun id => mem_liveIds (reachable_inv h).str id⟩
+  c19_admission_len_is_live_count h
 
 /-- the live-flow count grows only through an admission, by exactly one -/
 theorem C19_admission_only_growth {s : State} (h : Reachable s) (op : Op) :
     (step s op).1.len ≤ s.len ∨
     ((step s op).1.len = s.len + 1 ∧ s.len < s.maxFlows ∧ s.draining = false ∧
-      ∃ id cl k, Out.selectBackend id cl k ∈ (step s op).2) := by
-  have hi := reachable_inv h
-  obtain ⟨_, kd⟩ := step_kind hi op
-  rw [step_snd s op hi.drained, step_len s op hi.drained]
-  cases kd with
-  | quiet core sg => left; rw [core.len]; exact Nat.le_refl _
-  | buffer src p now id' f hop hvalid hk hf hph hsig slots len table => left; rw [len]; exact Nat.le_refl _
-  | forward src p now id' f b hop hvalid hk hf hph hb res => left; rw [res.len]; split <;> omega
-  | reply id' p now f hop hlen hf hph res => left; rw [res.len]; split <;> omega
-  | resolve id' bid addr now f q hop hf hph hq res => left; rw [res.len]; split <;> omega
-  | admission src p now hop hvalid hnone hroom hnd hvac hsig slots table len =>
-    right
-    refine ⟨len, hroom, hnd, nextId s, s.cluster.cluster, affKey src s.cluster.withPort, ?_⟩
-    rw [mem_outs_iff_sig rfl, hsig]; simp
-  | closes ids hnodup hlive hop hsig slots len hle => left; rw [len]; omega
+      ∃ id cl k, Out.selectBackend id cl k ∈ (step s op).2) :=
+  c19_admission_only_growth h op
 
 /-- Existing flows keep forwarding whatever the cap and the drain flag are
     (e.g. after `SetMaxFlows` below the live count, or `Drain`): a valid
@@ -490,210 +171,17 @@ theorem C19_admission_existing_flows_continue {s : State} (h : Reachable s) (src
     (now id : Nat) (f : Flow) (b : Addr) (hvalid : ClientValid s p)
     (hk : get? s.table (flowKey src s.cluster.withPort) = some id)
     (hf : getFlow s id = some f) (hb : f.backend = some b) :
-    ∃ pl, Out.sendToBackend id b pl ∈ (step s (.client src p now)).2 := by
-  have hi := reachable_inv h
-  simp only [getFlow_def] at hf
-  have hph : f.phase = .established := (hi.str.phaseOk id f hf).estab.mpr (by simp [hb])
-  rw [step_snd s _ hi.drained]
-  show ∃ pl, Out.sendToBackend id b pl ∈ (onClient s src p now).outs
-  rw [onClient_valid src now hvalid, hk]
-  simp only
-  obtain ⟨_, _, kd⟩ := forwardExisting_kind hi.str hi.caps src id p now hvalid hk
-  rw [forwardExisting_est p now hf hph hb] at kd ⊢
-  have hpk : PhaseOk (f.onClient now).takePP.2 := by
-    have hp := hi.str.phaseOk id f hf
-    rw [takePP_snd]; exact ⟨hp.notClosing, hp.estab, hp.await⟩
-  have hown : ownKey (f.onClient now).takePP.2 = ownKey f := by rw [takePP_snd]; rfl
-  have res := fwd_generic hi.str hi.caps hf hown hpk (fwdFlow_pp (hi.caps id f hf).pp now)
-    [.metric (.dgramIn p.length), .sendToBackend id b
-      (if (f.onClient now).takePP.1 then ppHeader f.client b ++ p else p)]
-  refine ⟨_, (mem_outs_iff_sig (o := Out.sendToBackend id b
-    (if (f.onClient now).takePP.1 then ppHeader f.client b ++ p else p)) rfl).mpr ?_⟩
-  rw [fwdRes_mem res hi.drained]
-  left; simp [sig, Out.noise]
-
-/-- the highest cap ever in force along an input sequence -/
-def capHigh (h : Nat) (ops : List Op) : Nat :=
-  ops.foldl (fun acc op => match op with
-    | .setMaxFlows n => max acc n
-    | _ => acc) h
-
-theorem capHigh_ge (ops : List Op) : ∀ h, h ≤ capHigh h ops := by
-  induction ops with
-  | nil => intro h; exact Nat.le_refl _
-  | cons op ops ih =>
-    intro h
-    simp only [capHigh, List.foldl_cons]
-    cases op <;> first
-      | exact ih h
-      | (rename_i n; exact Nat.le_trans (Nat.le_max_left h n) (ih (max h n)))
-
-theorem step_maxFlows (s : State) (op : Op) (hs : Str s) (hc : Caps s) (hd : s.outs = []) :
-    (step s op).1.maxFlows = match op with
-      | .setMaxFlows n => n
-      | _ => s.maxFlows := by
-  rw [step_fst s op hd]
-  cases op with
-  | client src p now =>
-    obtain ⟨_, _, k⟩ := onClient_kind hs hc src p now
-    show (onClient s src p now).maxFlows = s.maxFlows
-    cases k with
-    | quiet core sg =>
-      -- knobs of the quiet client paths: all are drops
-      by_cases hv : ClientValid s p
-      · rw [onClient_valid src now hv]
-        cases hk : get? s.table (flowKey src s.cluster.withPort) with
-        | some id =>
-          simp only
-          cases hf : get? s.slots id with
-          | none => rw [forwardExisting_none p now hf]; rfl
-          | some f =>
-            have hp := hs.phaseOk id f hf
-            cases hph : f.phase with
-            | closing => exact absurd hph hp.notClosing
-            | awaiting => rw [forwardExisting_await p now hf hph]; exact (sameKnobs_reschedule _).maxFlows
-            | established =>
-              obtain ⟨b, hb⟩ := Option.isSome_iff_exists.mp (hp.estab.mp hph)
-              rw [forwardExisting_est p now hf hph hb]
-              have hpk : PhaseOk (f.onClient now).takePP.2 := by
-                rw [takePP_snd]; exact ⟨hp.notClosing, hp.estab, hp.await⟩
-              have hown : ownKey (f.onClient now).takePP.2 = ownKey f := by rw [takePP_snd]; rfl
-              exact (fwd_generic hs hc hf hown hpk (fwdFlow_pp (hc id f hf).pp now) _).knobs.maxFlows
-        | none =>
-          simp only
-          by_cases h4 : s.draining = true
-          · simp [h4]; rfl
-          · by_cases h5 : s.len ≥ s.maxFlows
-            · simp [h4, h5]; rfl
-            · simp [h4, h5]; rw [admitFlow_eq]
-              exact ((sameKnobs_reschedule _).maxFlows).trans (admitted_knobs s (flowKey src s.cluster.withPort) (newFlow src s.cluster p now)).maxFlows
-      · obtain ⟨r, hr⟩ := onClient_invalid src now hv; rw [hr]; rfl
-    | buffer src' p' now' id f hop hvalid hk hf hph hsig slots len table =>
-      cases hop
-      rw [onClient_valid src now hvalid, hk]; simp only
-      rw [forwardExisting_await p now hf hph]; exact (sameKnobs_reschedule _).maxFlows
-    | forward src' p' now' id f b hop hvalid hk hf hph hb res => exact res.knobs.maxFlows
-    | reply id p' now' f hop hlen hf hph res => exact res.knobs.maxFlows
-    | resolve id bid addr now' f q hop hf hph hq res => exact res.knobs.maxFlows
-    | admission src' p' now' hop hvalid hnone hroom hnd hvac hsig slots table len =>
-      cases hop
-      rw [onClient_valid src now hvalid, hnone]
-      have h5 : ¬ s.len ≥ s.maxFlows := by omega
-      simp [hnd, h5]; rw [admitFlow_eq]
-      exact ((sameKnobs_reschedule _).maxFlows).trans (admitted_knobs s (flowKey src s.cluster.withPort) (newFlow src s.cluster p now)).maxFlows
-    | closes ids hnodup hlive hop hsig slots len hle =>
-      rcases hop with ⟨_, h, _⟩ | ⟨h, _⟩ | ⟨_, h, _⟩ <;> cases h
-  | backend id p now =>
-    obtain ⟨_, _, k⟩ := onBackend_kind hs hc id p now
-    show (onBackend s id p now).maxFlows = s.maxFlows
-    unfold onBackend
-    by_cases hlen : p.length > s.maxRx
-    · simp [hlen]; rfl
-    · simp only [hlen, if_false, getFlow_def]
-      cases hf : get? s.slots id with
-      | none => rfl
-      | some f =>
-        by_cases hph : f.phase = .established
-        · simp only [hph, ne_eq, not_true_eq_false, if_false, push_push_eq]
-          have hp := hs.phaseOk id f hf
-          exact (fwd_generic hs hc hf (f' := f.onBackend now) rfl
-            ⟨hp.notClosing, hp.estab, hp.await⟩ (hc id f hf).pp _).knobs.maxFlows
-        · simp [hph]; rfl
-  | resolved id bid addr now =>
-    show (onResolved s id bid addr now).maxFlows = s.maxFlows
-    obtain ⟨_, _, k⟩ := onResolved_kind hs hc id bid addr now
-    cases k with
-    | quiet core sg =>
-      cases hf : get? s.slots id with
-      | none =>
-        have : onResolved s id bid addr now = dropDatagram s .unknownFlow := by unfold onResolved; simp [hf]
-        rw [this]; rfl
-      | some f =>
-        by_cases hph : f.phase = .awaiting
-        · obtain ⟨q, hq⟩ := Option.isSome_iff_exists.mp ((hs.phaseOk id f hf).await hph)
-          rw [onResolved_eq bid addr now hf hph hq]
-          have hpk : PhaseOk (resolvedFlow f bid addr now) := by
-            unfold resolvedFlow; rw [takePP_snd]
-            exact ⟨by simp [Flow.onClient, Flow.touch], by simp [Flow.onClient, Flow.touch],
-              by simp [Flow.onClient, Flow.touch]⟩
-          have hown : ownKey (resolvedFlow f bid addr now) = ownKey f := by
-            unfold resolvedFlow; rw [takePP_snd]; rfl
-          have hpp : (resolvedFlow f bid addr now).cfg.ppEvery = false →
-              (resolvedFlow f bid addr now).firstPending =
-                ((resolvedFlow f bid addr now).cfg.sendPP && (resolvedFlow f bid addr now).req == 0) :=
-            fwdFlow_pp (f := Flow.mk f.client (some bid) (some addr) .established f.cfg f.req f.resp f.deadline
-              f.gen f.firstPending none) (hc id f hf).pp now
-          exact (fwd_generic hs hc hf hown hpk hpp _).knobs.maxFlows
-        · have : onResolved s id bid addr now = s := by unfold onResolved; simp [hf, hph]
-          rw [this]
-    | buffer src' p' now' id' f hop hvalid hk hf hph hsig slots len table => cases hop
-    | forward src' p' now' id' f b hop hvalid hk hf hph hb res => exact res.knobs.maxFlows
-    | reply id' p' now' f hop hlen hf hph res => exact res.knobs.maxFlows
-    | resolve id' bid' addr' now' f q hop hf hph hq res => exact res.knobs.maxFlows
-    | admission src' p' now' hop hvalid hnone hroom hnd hvac hsig slots table len => cases hop
-    | closes ids hnodup hlive hop hsig slots len hle =>
-      rcases hop with ⟨_, h, _⟩ | ⟨h, _⟩ | ⟨_, h, _⟩ <;> cases h
-  | setCluster cfg => rfl
-  | setMaxFlows n => rfl
-  | setMaxRx n => rfl
-  | drain => rfl
-  | timeout now =>
-    show (handleTimeout s now).maxFlows = s.maxFlows
-    unfold handleTimeout
-    have hnd : ((liveIds s).filter (isDue s now)).Nodup := List.Nodup.sublist List.filter_sublist (liveIds_nodup s)
-    rw [timeoutLoop_eq now _ s hs hnd (fun id h => (mem_due hs now id).mp h)]
-    obtain ⟨a, b, c, d, e, f⟩ := closeMany_spec ((liveIds s).filter (isDue s now)) s hs hc hnd
-    exact ((sameKnobs_reschedule _).maxFlows).trans c.maxFlows
-  | abort id => exact (sameKnobs_closeFlow hs id).maxFlows
-  | closeAll =>
-    show (closeAll s).maxFlows = s.maxFlows
-    unfold closeAll
-    exact (closeMany_spec (liveIds s) s hs hc (liveIds_nodup s)).2.2.1.maxFlows
+    ∃ pl, Out.sendToBackend id b pl ∈ (step s (.client src p now)).2 :=
+  c19_admission_existing_flows_continue h src p now id f b hvalid hk hf hb
 
 /-- **Bounded.** Along any input sequence the number of live flows never
     exceeds the highest cap ever in force (construction + every `SetMaxFlows`);
     in particular without a `SetMaxFlows` it never exceeds the configured cap. -/
 theorem C19_admission_bounded (c : Cfg) (mf mr : Nat) (ops : List Op) :
-    (run (State.new c mf mr) ops).len ≤ capHigh mf ops := by
-  have key : ∀ (ops : List Op) (s : State) (hw : Nat), Inv s → s.len ≤ hw → s.maxFlows ≤ hw →
-      (run s ops).len ≤ capHigh hw ops := by
-    intro ops
-    induction ops with
-    | nil => intro s hw _ h1 _; exact h1
-    | cons op ops ih =>
-      intro s hw hi h1 h2
-      have hreach : ∀ s, Inv s → ∀ op, (step s op).1.len ≤ s.len ∨ ((step s op).1.len = s.len + 1 ∧ s.len < s.maxFlows) := by
-        intro s hi op
-        obtain ⟨_, kd⟩ := step_kind hi op
-        rw [step_len s op hi.drained]
-        cases kd with
-        | quiet core sg => left; rw [core.len]; exact Nat.le_refl _
-        | buffer src p now id' f hop hvalid hk hf hph hsig slots len table => left; rw [len]; exact Nat.le_refl _
-        | forward src p now id' f b hop hvalid hk hf hph hb res => left; rw [res.len]; split <;> omega
-        | reply id' p now f hop hlen hf hph res => left; rw [res.len]; split <;> omega
-        | resolve id' bid addr now f q hop hf hph hq res => left; rw [res.len]; split <;> omega
-        | admission src p now hop hvalid hnone hroom hnd hvac hsig slots table len => right; exact ⟨len, hroom⟩
-        | closes ids hnodup hlive hop hsig slots len hle => left; rw [len]; omega
-      have hlen : (step s op).1.len ≤ hw := by
-        rcases hreach s hi op with h | ⟨h, h'⟩ <;> omega
-      have hmf := step_maxFlows s op hi.str hi.caps hi.drained
-      simp only [run, List.foldl_cons, capHigh]
-      cases op with
-      | setMaxFlows n =>
-        simp only at hmf
-        exact ih _ (max hw n) (inv_step hi _) (Nat.le_trans hlen (Nat.le_max_left _ _))
-          (by rw [hmf]; exact Nat.le_max_right _ _)
-      | _ =>
-        simp only at hmf
-        exact ih _ hw (inv_step hi _) hlen (by rw [hmf]; exact h2)
-  exact key ops _ mf (inv_new c mf mr) (by simp [State.new]) (by simp [State.new])
+    (run (State.new c mf mr) ops).len ≤ capHigh mf ops :=
+  c19_admission_bounded c mf mr ops
 
 /-! ### torn down exactly once -/
-
-theorem closedIds_closeIf (c : Bool) (id : Nat) :
-    closedIds (if c = true then [Out.closeFlow id] else []) = if c = true then [id] else [] := by
-  cases c <;> rfl
-
 
 /-- Within one input no flow id is closed twice, and every `CloseFlow f` hits
     a flow that was live before the input and leaves nothing behind: the slab
@@ -705,75 +193,8 @@ theorem C19_close_once {s : State} (h : Reachable s) (op : Op) :
     (closedIds (step s op).2).Nodup ∧
     ∀ id, Out.closeFlow id ∈ (step s op).2 →
       (getFlow s id).isSome ∧ getFlow (step s op).1 id = none ∧
-      ∀ k, get? (step s op).1.table k ≠ some id := by
-  have hi := reachable_inv h
-  obtain ⟨hi', k⟩ := step_kind hi op
-  have htab : ∀ id, getFlow (step s op).1 id = none → ∀ k, get? (step s op).1.table k ≠ some id := by
-    intro id hnone k hk
-    obtain ⟨g, hg, _⟩ := hi'.str.tableSound k id hk
-    simp only [getFlow_def] at hnone; rw [hnone] at hg; cases hg
-  suffices hmain : (closedIds (step s op).2).Nodup ∧ ∀ id, Out.closeFlow id ∈ (step s op).2 →
-      (getFlow s id).isSome ∧ getFlow (step s op).1 id = none from
-    ⟨hmain.1, fun id hid => ⟨(hmain.2 id hid).1, (hmain.2 id hid).2, htab id (hmain.2 id hid).2⟩⟩
-  simp only [getFlow_def]
-  rw [step_snd s op hi.drained, step_slots s op hi.drained, ← closedIds_sig]
-  have hmem := fun o (ho : Out.noise o = false) => @mem_outs_iff_sig o (handle s op).outs ho
-  cases k with
-  | quiet core sg =>
-    obtain ⟨l, hl, hd⟩ := sg
-    rw [hl, hi.drained]
-    have hnil : closedIds (sig [] ++ l) = [] := by
-      apply List.filterMap_eq_nil_iff.mpr
-      intro o ho; obtain ⟨r, hr⟩ := hd o (by simpa using ho); subst hr; rfl
-    refine ⟨by rw [hnil]; exact List.nodup_nil, ?_⟩
-    intro id hid
-    rw [hmem _ rfl, hl, hi.drained] at hid
-    obtain ⟨r, hr⟩ := hd _ (by simpa using hid); cases hr
-  | buffer src p now id' f hop hvalid hk hf hph hsig slots len table =>
-    rw [hsig, hi.drained]
-    refine ⟨List.nodup_nil, ?_⟩
-    intro id hid; rw [hmem _ rfl, hsig, hi.drained] at hid; simp at hid
-  | forward src p now id' f b hop hvalid hk hf hph hb res =>
-    refine ⟨?_, ?_⟩
-    · rw [res.sig, hi.drained, closedIds_append, closedIds_append, closedIds_closeIf]
-      simp only [closedIds, List.filterMap_cons, List.filterMap_nil, List.nil_append]
-      split <;> simp
-    · intro id hid
-      rw [hmem _ rfl, fwdRes_mem res hi.drained] at hid
-      rcases hid with hid | ⟨ht, hid⟩
-      · simp at hid
-      · cases hid; rw [res.slots]; simp [hf, ht]
-  | reply id' p now f hop hlen hf hph res =>
-    refine ⟨?_, ?_⟩
-    · rw [res.sig, hi.drained, closedIds_append, closedIds_append, closedIds_closeIf]
-      simp only [closedIds, List.filterMap_cons, List.filterMap_nil, List.nil_append]
-      split <;> simp
-    · intro id hid
-      rw [hmem _ rfl, fwdRes_mem res hi.drained] at hid
-      rcases hid with hid | ⟨ht, hid⟩
-      · simp at hid
-      · cases hid; rw [res.slots]; simp [hf, ht]
-  | resolve id' bid addr now f q hop hf hph hq res =>
-    refine ⟨?_, ?_⟩
-    · rw [res.sig, hi.drained, closedIds_append, closedIds_append, closedIds_closeIf]
-      simp only [closedIds, List.filterMap_cons, List.filterMap_nil, List.nil_append]
-      split <;> simp
-    · intro id hid
-      rw [hmem _ rfl, fwdRes_mem res hi.drained] at hid
-      rcases hid with hid | ⟨ht, hid⟩
-      · simp at hid
-      · cases hid; rw [res.slots]; simp [hf, ht]
-  | admission src p now hop hvalid hnone hroom hnd hvac hsig slots table len =>
-    rw [hsig, hi.drained]
-    refine ⟨by simp [closedIds], ?_⟩
-    intro id hid; rw [hmem _ rfl, hsig, hi.drained] at hid; simp at hid
-  | closes ids hnodup hlive hop hsig slots len hle =>
-    rw [hsig, hi.drained]
-    refine ⟨by simpa [closedIds_map] using hnodup, ?_⟩
-    intro id hid
-    rw [hmem _ rfl, hsig, hi.drained] at hid
-    have : id ∈ ids := by simpa using hid
-    exact ⟨hlive id this, by rw [slots]; simp [this]⟩
+      ∀ k, get? (step s op).1.table k ≠ some id :=
+  c19_close_once h op
 
 /-- Mass teardown: `close_all` closes every live flow (each exactly once, in
     slab order) and leaves an empty slab, an empty table and `len = 0`. -/
@@ -781,30 +202,8 @@ theorem C19_close_all {s : State} (h : Reachable s) :
     closedIds (step s .closeAll).2 = liveIds s ∧
     (∀ id, getFlow (step s .closeAll).1 id = none) ∧
     (∀ k, get? (step s .closeAll).1.table k = none) ∧
-    (step s .closeAll).1.len = 0 := by
-  have hi := reachable_inv h
-  have hi' := inv_step hi .closeAll
-  obtain ⟨hsig, hslots⟩ := closeAll_spec hi.str hi.caps
-  have hs1 : ∀ id, getFlow (step s .closeAll).1 id = none := by
-    intro id; simp only [getFlow_def]; rw [step_slots s _ hi.drained]; exact hslots id
-  refine ⟨?_, hs1, ?_, ?_⟩
-  · rw [step_snd s _ hi.drained, ← closedIds_sig]
-    show closedIds (sig (closeAll s).outs) = liveIds s
-    rw [hsig, hi.drained]; simp [closedIds_map]
-  · intro k
-    cases hk : get? (step s .closeAll).1.table k with
-    | none => rfl
-    | some id =>
-      obtain ⟨g, hg, _⟩ := hi'.str.tableSound k id hk
-      have := hs1 id; simp only [getFlow_def] at this; rw [this] at hg; cases hg
-  · rw [hi'.str.lenEq]
-    have : liveIds (step s .closeAll).1 = [] := by
-      apply List.filter_eq_nil_iff.mpr
-      intro i _
-      have := hs1 i
-      simp only [getFlow_def] at this
-      simp [this]
-    rw [this]; rfl
+    (step s .closeAll).1.len = 0 :=
+  c19_close_all h
 
 /-! ### idle flows are reclaimed -/
 
@@ -814,122 +213,26 @@ theorem C19_close_all {s : State} (h : Reachable s) :
 theorem C19_idle_reclaimed {s : State} (h : Reachable s) (now : Nat) :
     (∀ id f, getFlow (step s (.timeout now)).1 id = some f → now < f.deadline) ∧
     (∀ id, Out.closeFlow id ∈ (step s (.timeout now)).2 ↔
-      ∃ f, getFlow s id = some f ∧ f.deadline ≤ now) := by
-  have hi := reachable_inv h
-  obtain ⟨hsig, hslots⟩ := timeout_spec hi.str hi.caps now
-  refine ⟨?_, ?_⟩
-  · intro id f hf
-    simp only [getFlow_def] at hf
-    rw [step_slots s _ hi.drained] at hf
-    have hf2 : get? (handleTimeout s now).slots id = some f := hf
-    rw [hslots] at hf2
-    split at hf2
-    · cases hf2
-    · next hnot =>
-      have : ¬ ∃ f, get? s.slots id = some f ∧ f.deadline ≤ now :=
-        fun hx => hnot ((mem_due hi.str now id).mpr hx)
-      cases hlt : decide (now < f.deadline) with
-      | true => simpa using hlt
-      | false =>
-        exfalso; apply this
-        exact ⟨f, hf2, by simp at hlt; exact hlt⟩
-  · intro id
-    rw [step_snd s _ hi.drained, mem_outs_iff_sig rfl]
-    show Out.closeFlow id ∈ sig (handleTimeout s now).outs ↔ _
-    rw [hsig, hi.drained]
-    simp only [sig_nil, List.nil_append, List.mem_map, getFlow_def]
-    constructor
-    · rintro ⟨j, hj, hjid⟩
-      cases hjid
-      exact (mem_due hi.str now id).mp hj
-    · intro hx
-      exact ⟨id, (mem_due hi.str now id).mpr hx, rfl⟩
+      ∃ f, getFlow s id = some f ∧ f.deadline ≤ now) :=
+  c19_idle_reclaimed h now
 
 /-! ### trace level: admissions − closes = live flows, along every run -/
-
-/-- number of `SelectBackend` (admissions) in a trace -/
-def admissionsIn (tr : List (List Out)) : Nat := (tr.flatten.filter isSel).length
-/-- number of `CloseFlow` in a trace -/
-def closesIn (tr : List (List Out)) : Nat := (closedIds tr.flatten).length
-
-theorem sel_closeIf (c : Bool) (id : Nat) :
-    (if c = true then [Out.closeFlow id] else []).filter isSel = [] := by
-  cases c <;> rfl
-
-/-- one input: admissions + live before = closes + live after -/
-theorem step_accounting {s : State} (hi : Inv s) (op : Op) :
-    ((step s op).2.filter isSel).length + s.len =
-      (closedIds (step s op).2).length + (step s op).1.len := by
-  obtain ⟨_, k⟩ := step_kind hi op
-  rw [step_snd s op hi.drained, step_len s op hi.drained, ← sel_sig, ← closedIds_sig]
-  cases k with
-  | quiet core sg =>
-    obtain ⟨l, hl, hd⟩ := sg
-    rw [hl, hi.drained, core.len]
-    have h1 : (sig [] ++ l).filter isSel = [] := by
-      apply List.filter_eq_nil_iff.mpr
-      intro o ho; obtain ⟨r, hr⟩ := hd o (by simpa using ho); subst hr; simp [isSel]
-    have h2 : closedIds (sig [] ++ l) = [] := by
-      apply List.filterMap_eq_nil_iff.mpr
-      intro o ho; obtain ⟨r, hr⟩ := hd o (by simpa using ho); subst hr; rfl
-    rw [h1, h2]; simp
-  | buffer src p now id' f hop hvalid hk hf hph hsig slots len table =>
-    rw [hsig, hi.drained, len]; rfl
-  | forward src p now id' f b hop hvalid hk hf hph hb res =>
-    have hpos := len_pos_of_live hi.str hf
-    rw [res.sig, hi.drained, res.len, closedIds_append, closedIds_append, closedIds_closeIf,
-      List.filter_append, List.filter_append, sel_closeIf]
-    cases (f.onClient now).takePP.2.teardownDue <;> simp [closedIds, isSel, List.filter_cons] <;> omega
-  | reply id' p now f hop hlen hf hph res =>
-    have hpos := len_pos_of_live hi.str hf
-    rw [res.sig, hi.drained, res.len, closedIds_append, closedIds_append, closedIds_closeIf,
-      List.filter_append, List.filter_append, sel_closeIf]
-    cases (f.onBackend now).teardownDue <;> simp [closedIds, isSel, List.filter_cons] <;> omega
-  | resolve id' bid addr now f q hop hf hph hq res =>
-    have hpos := len_pos_of_live hi.str hf
-    rw [res.sig, hi.drained, res.len, closedIds_append, closedIds_append, closedIds_closeIf,
-      List.filter_append, List.filter_append, sel_closeIf]
-    cases (resolvedFlow f bid addr now).teardownDue <;> simp [closedIds, isSel, List.filter_cons] <;> omega
-  | admission src p now hop hvalid hnone hroom hnd hvac hsig slots table len =>
-    rw [hsig, hi.drained, len]
-    simp [closedIds, isSel, List.filter_cons]; omega
-  | closes ids hnodup hlive hop hsig slots len hle =>
-    rw [hsig, hi.drained, len]
-    have h1 : (sig [] ++ ids.map Out.closeFlow).filter isSel = [] := by
-      apply List.filter_eq_nil_iff.mpr
-      intro o ho
-      have : o ∈ ids.map Out.closeFlow := by simpa using ho
-      obtain ⟨i, _, rfl⟩ := List.mem_map.mp this; simp [isSel]
-    rw [h1, closedIds_append, closedIds_map]
-    simp [closedIds]
-    omega
 
 /-- **Each admitted flow incarnation is closed exactly once (trace level).**
     Along any input sequence, from any reachable-style state: the number of
     admissions (`SelectBackend`) in the trace plus the live flows at the start
     equals the number of `CloseFlow`s plus the live flows at the end. -/
 theorem C19_close_once_accounting_from (ops : List Op) : ∀ {s : State}, Inv s →
-    admissionsIn (trace s ops) + s.len = closesIn (trace s ops) + (run s ops).len := by
-  induction ops with
-  | nil => intro s _; simp [admissionsIn, closesIn, trace, run, closedIds]
-  | cons op ops ih =>
-    intro s hi
-    have h1 := step_accounting hi op
-    have h2 := ih (inv_step hi op)
-    have hrun : run s (op :: ops) = run (step s op).1 ops := rfl
-    rw [hrun]
-    simp only [admissionsIn, closesIn, trace, List.flatten_cons, List.filter_append, List.length_append,
-      closedIds_append] at h2 ⊢
-    omega
+    admissionsIn (trace s ops) + s.len = closesIn (trace s ops) + (run s ops).len :=
+  c19_close_once_accounting_from ops
 
 /-- From a fresh manager: admissions − closes = live flows, after every input
     sequence; in particular once everything is torn down (`len = 0`) every
     admission has been matched by exactly one `CloseFlow`. -/
 theorem C19_close_once_accounting (c : Cfg) (mf mr : Nat) (ops : List Op) :
     admissionsIn (trace (State.new c mf mr) ops) =
-      closesIn (trace (State.new c mf mr) ops) + (run (State.new c mf mr) ops).len := by
-  have := C19_close_once_accounting_from ops (inv_new c mf mr)
-  simpa [State.new] using this
+      closesIn (trace (State.new c mf mr) ops) + (run (State.new c mf mr) ops).len :=
+  c19_close_once_accounting c mf mr ops
 
 /-! ### non-vacuity: a concrete run exercising every branch the theorems talk about -/
 
@@ -985,5 +288,133 @@ example : admissionsIn (trace (State.new exCfg 2 64)
       [.client exC1 [1] 0, .client exC2 [3] 2, .resolved 0 "b0" cexB 3, .timeout 402, .closeAll]) = 2 := by
   decide
 
-end Sozu.Udp
+/-! ### whole runs: one flow incarnation from its admission to its close -/
 
+/-- **Sticky along runs.** From any reachable state in which flow `id` is live,
+    along any further input sequence: every `SendToBackend` of that incarnation
+    (`flowSends`: up to and including the input that closes it) carries one and
+    the same address — the flow's backend address if it is already set, else the
+    address of the one resolution that establishes it. -/
+theorem C19_sticky_run {s : State} (h : Reachable s) (id : Nat) (f : Flow) (hf : getFlow s id = some f)
+    (ops : List Op) :
+    ∃ b, (∀ b', f.backend = some b' → b' = b) ∧ ∀ x, x ∈ flowSends id s ops → x.1 = b :=
+  sticky_run h id f hf ops
+
+/-- **No duplication / merging / truncation / reordering, along runs.** The
+    payloads sent upstream on one incarnation are exactly the wire image
+    (`expectPayloads`: PROXY v2 header of (client, backend) on the first
+    datagram iff `ppFirst`, on every later one iff `send ∧ every`) of a list
+    `origs` that is a subsequence, in arrival order, of: the datagram parked in
+    the flow, then the datagrams sent during the run from the flow's affinity
+    key (same ip, and same port in 4-tuple mode). -/
+theorem C19_flow_payload_sequence {s : State} (h : Reachable s) (id : Nat) (f : Flow)
+    (hf : getFlow s id = some f) (ops : List Op) :
+    ∃ b origs, (flowSends id s ops).map (fun x => x.2) = expectPayloads f b origs ∧
+      List.Sublist origs (buffered f ++ keyPayloads f.client f.cfg.withPort ops) :=
+  payload_run h id f hf ops
+
+/-- The same from the very admission of an incarnation (`SelectBackend id` caused
+    by the datagram `p` of `src`): all its upstream datagrams go to one address,
+    and their payloads are the wire image of a subsequence of `p` followed by the
+    later datagrams of that affinity key. -/
+theorem C19_incarnation_history {s : State} (h : Reachable s) (src : Addr) (p : Bytes) (now id : Nat)
+    (cl : String) (k : AKey) (hout : Out.selectBackend id cl k ∈ (step s (.client src p now)).2)
+    (ops : List Op) :
+    ∃ b origs, (∀ x, x ∈ flowSends id (step s (.client src p now)).1 ops → x.1 = b) ∧
+      (flowSends id (step s (.client src p now)).1 ops).map (fun x => x.2) =
+        expectPayloads (newFlow src s.cluster p now) b origs ∧
+      List.Sublist origs (p :: keyPayloads src s.cluster.withPort ops) :=
+  incarnation_history h src p now id cl k hout ops
+
+/-- non-vacuity: flow 0 of `exState` over four more inputs — two datagrams of its
+    client (one interleaved with another client's), then its idle close; a later
+    datagram of the same client belongs to the next incarnation and is not counted -/
+example : flowSends 0 exState
+      [.client exC1 [4] 5, .client exC2 [7] 5, .client exC1 [5] 6, .timeout 500, .client exC1 [6] 501] =
+    [(cexB, [4]), (cexB, [5])] := by decide
+/-- the header goes on the first datagram of the incarnation only (`ppEvery = false`) -/
+example : (flowSends 0 (State.new exCfg 2 64)
+      [.client exC1 [1] 0, .client exC1 [2] 1, .resolved 0 "b0" cexB 3, .client exC1 [3] 4]).map (fun x => x.2) =
+    [ppHeader exC1 cexB ++ [2], [3]] := by decide
+
+/-! ### the idle timer -/
+
+/-- In every reachable state what `poll_timeout()` returns (`armed`) is the
+    earliest idle deadline: `none` iff no flow is live, else the least deadline
+    of a live flow. -/
+theorem C19_timer_armed_is_earliest {s : State} (h : Reachable s) :
+    s.armed = minDeadline s ∧ (minDeadline s = none ↔ ∀ id, getFlow s id = none) ∧
+    ∀ d, minDeadline s = some d →
+      (∃ id f, getFlow s id = some f ∧ f.deadline = d) ∧ ∀ id f, getFlow s id = some f → d ≤ f.deadline :=
+  timer_armed_is_earliest h
+
+/-- **Timer re-armed (after the repair of `idle-flow-not-torn-down`).** After any
+    call of the shell's `timeout` (`shellTimeout true`: `handle_timeout`, drain,
+    then arm for `poll_timeout()`), at whatever instant the wheel fired: either
+    no flow is pending, or the wheel holds a timer for the earliest idle
+    deadline, which lies in the future. -/
+theorem C19_timer_rearmed {s : State} (h : Reachable s) (now : Nat) :
+    (∀ id, getFlow (shellTimeout true s now).1 id = none) ∨
+    ∃ d, (shellTimeout true s now).2 = some d ∧ now < d ∧
+      (∃ id f, getFlow (shellTimeout true s now).1 id = some f ∧ f.deadline = d) ∧
+      ∀ id f, getFlow (shellTimeout true s now).1 id = some f → d ≤ f.deadline :=
+  timer_rearmed h now
+
+/-- the shell before the repair (`shellTimeout false`: re-arm only on `ArmTimer`):
+    an early fire leaves a live flow and an empty wheel; the repaired shell holds 400 -/
+theorem C19_timer_unrepaired_counterexample :
+    (shellTimeout false (run (State.new exCfg 2 64) [.client exC1 [1] 0]) 399).2 = none ∧
+    (getFlow (shellTimeout false (run (State.new exCfg 2 64) [.client exC1 [1] 0]) 399).1 0).isSome = true ∧
+    (shellTimeout true (run (State.new exCfg 2 64) [.client exC1 [1] 0]) 399).2 = some 400 := by
+  decide
+
+/-! ### the I/O shell's choice of the upstream socket (model `Shell`) -/
+
+/-- **Established flows.** If the shell's shadow table agrees with the manager's
+    flow table (`ShadowOk`), then in the drain pass of a client datagram — with
+    the per-datagram reset of `in_flight_flow` — every `SendToBackend` is written
+    to the socket of the flow that owns it. -/
+theorem C19_shell_routes_established {s : State} (h : Reachable s) {sh : Shell} (hok : ShadowOk sh s)
+    (src : Addr) (p : Bytes) (now : Nat) :
+    ∀ x, x ∈ (Shell.drain s.cluster.withPort (some src) { sh with inFlight := none }
+        (step s (.client src p now)).2).2 → x.2 = some x.1 :=
+  shell_established h hok src p now
+
+/-- **New flows.** Whatever the shell's state: the datagram flushed by a
+    resolution is written to the socket opened by the `OpenUpstream` that
+    precedes it in the same manager call. -/
+theorem C19_shell_routes_resolution {s : State} (h : Reachable s) (sh : Shell) (wp : Bool)
+    (cur : Option Addr) (id : Nat) (bid : String) (addr : Addr) (now : Nat) :
+    ∀ x, x ∈ (Shell.drain wp cur sh (step s (.resolved id bid addr now)).2).2 → x.2 = some x.1 :=
+  shell_resolution h sh wp cur id bid addr now
+
+def exSys : Sys := { s := State.new exCfg 4 64, sh := Shell.new cexB, cur := none }
+/-- two clients, each admitted and resolved in its own drain pass, then one more
+    datagram of the first client -/
+def exPasses : List Op :=
+  [.client exC1 [1] 0, .resolved 0 "b0" cexB 0, .client exC2 [2] 1, .resolved 1 "b0" cexB 1,
+   .client exC1 [3] 2]
+
+/-- non-vacuity, and the seeded defect: with the per-datagram reset every
+    datagram uses its own flow's socket; without it (`reset = false`, the
+    `in_flight_flow = None` hoisted out of the receive loop) the third datagram of
+    flow 0 is written to the socket of flow 1, the flow opened last -/
+theorem C19_shell_reset_needed :
+    Sys.routes true exSys exPasses = [(0, some 0), (1, some 1), (0, some 0)] ∧
+    Sys.routes false exSys exPasses = [(0, some 0), (1, some 1), (0, some 1)] := by
+  decide
+
+/-- `ShadowOk` is a real hypothesis: the shadow table is keyed by the bare
+    normalised source address, without the `ip_only` flag the manager's key got
+    with the repair of the port-0 alias. A source with port 0 admitted in
+    4-tuple mode, a second source of the same ip admitted in source-ip mode,
+    then 4-tuple mode again: the next datagram of the first source belongs to
+    flow 0 (manager) but is written to the socket of flow 1 (shell). -/
+theorem C19_shell_shadow_port0_alias_counterexample :
+    Sys.routes true { s := State.new (cexCfg true) 4 64, sh := Shell.new cexB, cur := none }
+      [.client cex4 [1] 0, .resolved 0 "b0" cexB 0, .setCluster (cexCfg false),
+       .client cex4' [2] 1, .resolved 1 "b0" cexB 1, .setCluster (cexCfg true),
+       .client cex4 [3] 2] = [(0, some 0), (1, some 1), (0, some 1)] := by
+  decide
+
+end Sozu.Udp
